@@ -1,6 +1,9 @@
 package main
 
 import (
+	"go/ast"
+	"go/parser"
+	"go/token"
 	"crypto/sha256"
 	"encoding/hex"
 	"fmt"
@@ -77,7 +80,7 @@ func load(pattern string) (*loaded, error) {
 		}
 		ov[v] = c
 	}
-	cfg := &packages.Config{Mode: packages.LoadAllSyntax, Dir: repoRoot, Overlay: ov, BuildFlags: []string{"-tags=verif"}, Env: goEnv()}
+	cfg := &packages.Config{Mode: packages.LoadAllSyntax, Dir: repoRoot, Overlay: ov, BuildFlags: []string{"-tags=verif"}, Env: goEnv(), ParseFile: parseFile}
 	pkgs, err := packages.Load(cfg, pattern, "runtime")
 	if err != nil {
 		return nil, err
@@ -87,6 +90,9 @@ func load(pattern string) (*loaded, error) {
 		for _, e := range p.Errors {
 			errs = append(errs, e.Error())
 		}
+		if p.IllTyped && len(p.Errors) == 0 {
+			errs = append(errs, p.PkgPath+": ill-typed")
+		}
 	})
 	if len(errs) > 0 {
 		if len(errs) > 10 {
@@ -95,8 +101,117 @@ func load(pattern string) (*loaded, error) {
 		return nil, fmt.Errorf("the tree (with the harness overlay) does not compile:\n  %s", strings.Join(errs, "\n  "))
 	}
 	prog, spkgs := ssautil.AllPackages(pkgs, ssa.InstantiateGenerics)
-	prog.Build()
+	// function bodies: the module under test now, dependency packages on first use (interp builds them)
+	for _, p := range prog.AllPackages() {
+		if strings.HasPrefix(p.Pkg.Path(), "github.com/truora/minidyn") || p.Pkg.Path() == "runtime" || p.Pkg.Path() == "errors" {
+			p.Build()
+		}
+	}
 	return &loaded{prog: prog, pkgs: spkgs}, nil
+}
+
+// keepBodies: function bodies are kept (and so can be executed symbolically) for the module under test,
+// the harness overlay, and the small helper packages the code under test really calls; every other
+// dependency file is parsed with its function bodies removed, which keeps type information intact but
+// shrinks load time and the live heap several-fold. A call into a stripped function aborts the path as
+// "unsupported" (inconclusive), it can never make a check pass.
+func keepBodies(filename string) bool {
+	if strings.HasPrefix(filename, repoRoot+"/") {
+		return true
+	}
+	dir := filepath.Dir(filename)
+	has := func(sub string) bool { return strings.Contains(filename, sub) }
+	switch {
+	case has("/aws-sdk-go-v2@") && strings.HasSuffix(dir, "/aws"):
+		return true
+	case has("/aws-sdk-go-v2/service/dynamodb@") && strings.HasSuffix(dir, "/types"):
+		return true
+	case has("/smithy-go@") && (strings.HasSuffix(filepath.Base(dir), "smithy-go@"+afterAt(dir)) || strings.HasSuffix(dir, "/ptr")):
+		return true
+	case has("/aws-sdk-go@"):
+		for _, d := range []string{"/aws", "/aws/awserr", "/aws/awsutil", "/aws/request", "/service/dynamodb"} {
+			if strings.HasSuffix(dir, d) {
+				return true
+			}
+		}
+		return false
+	}
+	if i := strings.Index(filename, "/src/"); i >= 0 && !has("/pkg/mod/") {
+		pkg := filepath.Dir(filename[i+5:])
+		switch pkg {
+		case "errors", "strings", "sort", "strconv", "bytes", "unicode", "unicode/utf8", "math", "math/bits",
+			"sync", "sync/atomic", "context", "slices", "maps", "cmp", "iter", "internal/stringslite", "internal/bytealg", "internal/itoa":
+			return true
+		}
+	}
+	return false
+}
+
+func afterAt(dir string) string {
+	if i := strings.LastIndex(dir, "@"); i >= 0 {
+		return dir[i+1:]
+	}
+	return ""
+}
+
+func parseFile(fset *token.FileSet, filename string, src []byte) (*ast.File, error) {
+	f, err := parser.ParseFile(fset, filename, src, parser.SkipObjectResolution)
+	if err != nil || keepBodies(filename) {
+		return f, err
+	}
+	for _, d := range f.Decls {
+		if fd, ok := d.(*ast.FuncDecl); ok && fd.Body != nil {
+			// the engine turns this panic into an "unsupported" abort of the path
+			fd.Body = &ast.BlockStmt{Lbrace: fd.Body.Lbrace, Rbrace: fd.Body.Rbrace, List: []ast.Stmt{&ast.ExprStmt{X: &ast.CallExpr{
+				Fun: ast.NewIdent("panic"), Args: []ast.Expr{&ast.BasicLit{Kind: token.STRING, Value: `"symgo: stripped function body"`}}}}}}
+		}
+	}
+	// imports that only the removed bodies used must go, or the package would be ill-typed
+	used := map[string]bool{}
+	ast.Inspect(f, func(n ast.Node) bool {
+		if se, ok := n.(*ast.SelectorExpr); ok {
+			if id, ok := se.X.(*ast.Ident); ok {
+				used[id.Name] = true
+			}
+		}
+		return true
+	})
+	for _, im := range f.Imports {
+		if im.Name != nil {
+			if im.Name.Name != "_" && im.Name.Name != "." && !used[im.Name.Name] {
+				im.Name.Name = "_"
+			}
+			continue
+		}
+		path := strings.Trim(im.Path.Value, "\"")
+		keep := false
+		for _, c := range importNameCandidates(path) {
+			if used[c] {
+				keep = true
+			}
+		}
+		if !keep {
+			im.Name = ast.NewIdent("_")
+		}
+	}
+	return f, nil
+}
+
+func importNameCandidates(path string) []string {
+	parts := strings.Split(path, "/")
+	var out []string
+	add := func(s string) {
+		out = append(out, s, strings.TrimSuffix(s, "-go"), strings.TrimPrefix(s, "go-"), strings.ReplaceAll(s, "-", "_"), strings.ReplaceAll(s, "-", ""))
+		if i := strings.Index(s, "."); i > 0 {
+			out = append(out, s[:i])
+		}
+	}
+	last := parts[len(parts)-1]
+	add(last)
+	if len(parts) > 1 && len(last) > 1 && last[0] == 'v' && last[1] >= '0' && last[1] <= '9' {
+		add(parts[len(parts)-2])
+	}
+	return out
 }
 
 func (l *loaded) harness(name string) (*ssa.Package, *ssa.Function) {
